@@ -262,6 +262,11 @@ func QuickHistories() []History {
 		{Name: "q05-link-parent-dies", Ops: []Op{reg(idA, 1), child(idA, idC, 2), reg(idB, 3), child(idB, idD, 4), {Kind: OpExit, ID: idA}, {Kind: OpMarkDead, ID: idB}}},
 		{Name: "q06-link-move", Ops: []Op{reg(idA, 1), reg(idB, 2), child(idA, idC, 3), {Kind: OpPDisconnect, ID: idA, Child: idC}, child(idB, idC, 3), {Kind: OpPoll, ID: idA}}},
 		{Name: "q07-link-move-nodisc", Ops: []Op{reg(idA, 1), reg(idB, 2), child(idA, idC, 3), child(idB, idC, 3), {Kind: OpPoll, ID: idA}}},
+		// a parent with two children at once: removing one pair (disconnect, death of the child,
+		// move below another parent) must leave the sibling's pair alone (round-2 seed C10-2)
+		{Name: "q15-siblings-disconnect", Ops: []Op{reg(idA, 1), child(idA, idC, 2), child(idA, idD, 3), {Kind: OpPDisconnect, ID: idA, Child: idC}, {Kind: OpPoll, ID: idA}}},
+		{Name: "q16-siblings-child-dies", Ops: []Op{reg(idA, 1), child(idA, idC, 2), child(idA, idD, 3), {Kind: OpMarkDead, ID: idD}, {Kind: OpRestart}, {Kind: OpPoll, ID: idA}}},
+		{Name: "q17-siblings-move", Ops: []Op{reg(idA, 1), reg(idB, 2), child(idA, idC, 3), child(idA, idD, 4), child(idB, idC, 3), {Kind: OpPDisconnect, ID: idA, Child: idD}}},
 		{Name: "q08-listeners", Ops: []Op{{Kind: OpLAdd, L: smb("smb1", "pipe1")}, {Kind: OpLAdd, L: ext("ext1", "ep1")}, {Kind: OpLRemove, Name: "smb1"}, {Kind: OpLAdd, L: smb("smb2", `\\.\pipe\x`)}, {Kind: OpLRemove, Name: "ext1"}, {Kind: OpLAdd, L: smb("smb1", "pipe1b")}}},
 		{Name: "q09-mixed", Ops: []Op{{Kind: OpLAdd, L: smb("s", "007")}, reg(idA, 1), {Kind: OpLAdd, L: ext("e", "1e3")}, child(idA, idC, 2), {Kind: OpLRemove, Name: "s"}, {Kind: OpExit, ID: idA}}},
 		{Name: "q10-http", Ops: []Op{{Kind: OpLAdd, L: httpL("h1", nil)}, reg(idA, 1), {Kind: OpLAdd, L: httpL("h2", map[string]string{"Headers": "", "Uris": "", "Proxy Enabled": "false", "HostHeader": "", "PortConn": ""})}}},
